@@ -1029,7 +1029,7 @@ func longHistory(vt, g int) *evid.Violation {
 // exceed 4 GiB (two keys of 2 GiB + 3 and 2 GiB + 7 bytes, each below the 4 GiB limit per key, followed by short keys), so that offsets into the key
 // storage no longer fit 32 bits.
 func TestC07_HugeKeys(t *testing.T) {
-	rec := evid.New("C07", "c07_huge_keys", "one load per map flavour {StrMap[int], Str2Str} whose first two keys have 2 GiB + 3 and 2 GiB + 7 bytes (zero bytes, never touched in the source) followed by 6 short keys incl. the empty key; every key is read back, absent probes are absent, Len and Item enumeration checked; thorough tier only, skipped (and recorded as skipped) when less than 24 GiB of memory is available; every flavour is one evaluation")
+	rec := evid.New("C07", "c07_huge_keys", "one load per map flavour {StrMap[int], Str2Str} whose first two keys have 2 GiB + 3 and 2 GiB + 7 bytes (zero bytes, never touched in the source) followed by 6 short keys incl. the empty key; every key is read back, absent probes are absent, Len and Item enumeration checked; then one Str2Str load whose VALUES total more than 4 GiB (two values of about 2 GiB and two short ones), every value read back; thorough tier only, skipped (and recorded as skipped) when less than 24 GiB of memory is available; every flavour is one evaluation")
 	defer rec.Flush()
 	if !evid.Thorough() {
 		rec.Assume("not run in the quick tier (needs about 9 GiB of memory and 10..30 s)")
@@ -1113,6 +1113,39 @@ func TestC07_HugeKeys(t *testing.T) {
 			break
 		}
 		inst = nil
+		debug.FreeOSMemory()
+	}
+	// the same for VALUES: a Str2Str whose values total more than 4 GiB (offsets into the value store beyond 2^32)
+	{
+		var viol *evid.Violation
+		p, st := evid.Safe(func() {
+			m := strmap.NewStr2Str()
+			kk := []string{"first", "second", "third", ""}
+			vv := []string{huge[:hugeLen-4], huge, "a value behind 4 GiB", "x"}
+			if err := m.LoadFromSlice(kk, vv); err != nil {
+				viol = evid.Failf("Str2Str load with two values of about 2 GiB failed: %v", err)
+				return
+			}
+			for i, k := range kk {
+				got, ok := m.Get(k)
+				if !ok || len(got) != len(vv[i]) || (len(got) < 100 && got != vv[i]) {
+					viol = evid.Failf("Str2Str whose values total more than 4 GiB: Get(%q) = (%d bytes, %v), want the %d-byte value", k, len(got), ok, len(vv[i]))
+					return
+				}
+			}
+			if _, ok := m.Get("fourth"); ok || m.Len() != 4 {
+				viol = evid.Failf("Str2Str whose values total more than 4 GiB: absent key present, or Len()=%d", m.Len())
+			}
+		})
+		if p != nil {
+			viol = &evid.Violation{Msg: fmt.Sprintf("panic with value bytes beyond 4 GiB: %v", p), Stack: st}
+		}
+		b.Evals++
+		b.Distinct++
+		b.Nontrivial++
+		if viol != nil {
+			failEnum(t, rec, "c07_long_history", LongHistCase{VType: 2, Gap: -2}, viol)
+		}
 		debug.FreeOSMemory()
 	}
 	rec.Merge(b)
